@@ -8,7 +8,7 @@
            stack  the invocation stack (<<>>: no transaction is running)
            nchg, ntx, pend   bounds / bookkeeping: table changes of the running transaction, transactions
                   started, transactions in the open block
-   actions BeginTx, Call(c, rs, try), Return, UpdateGroups(c, g), Destroy(c), Deploy(c, g), Throw,
+   actions BeginTx, Call(c, rs, try), Return, UpdateGroups(c, g, cb), Destroy(c), Deploy(c, g, cb), Throw,
            EndTx(HALT | FAULT), NextBlock;   CheckWitness(account) is a pure read: its answer is
            Answer(signers, account) == Witness!CheckX over CtxOf(stack, tbl) - the CURRENT table.
 
@@ -25,7 +25,8 @@ CONSTANTS Contracts,      \* names (hashes) of the contracts of the universe
           MaxChanges,     \* table changes per transaction
           MaxTx,          \* transactions
           WithTry,        \* calls from inside try blocks / caught exceptions are part of the universe
-          WithNoRS        \* leaf frames without the ReadStates call flag are part of the universe
+          WithNoRS,       \* leaf frames without the ReadStates call flag are part of the universe
+          WithCb          \* update / deploy running the contract's _deploy method are part of the universe
 
 VARIABLES tbl, base, stack, nchg, ntx, pend
 avars == <<tbl, base, stack, nchg, ntx, pend>>
@@ -42,29 +43,35 @@ BeginTx == /\ ~Running /\ ntx < MaxTx
            /\ UNCHANGED tbl
 
 Call(c, rs, try) ==
-    /\ Full /\ Len(stack) <= MaxDepth /\ IsLive(tbl, c)
+    /\ Full /\ Depth(stack) < MaxDepth /\ IsLive(tbl, c)
     /\ (try => WithTry) /\ (~rs => WithNoRS)
     /\ stack' = PushCall(stack, tbl, c, rs, try)
     /\ UNCHANGED <<tbl, base, nchg, ntx, pend>>
 
 Return == /\ Running /\ Len(stack) > 1
-          /\ stack' = Pop(stack)
+          /\ Top(stack).hash # MgmtHash
+          /\ stack' = PopRet(stack)
           /\ UNCHANGED <<tbl, base, nchg, ntx, pend>>
 
-UpdateGroups(c, g) ==
-    /\ Full /\ Len(stack) > 1 /\ Exec = c /\ IsLive(tbl, c) /\ nchg < MaxChanges /\ g # tbl[c].groups
+\* cb: the new manifest's _deploy method runs before update / deploy returns
+CbOK(cb) == cb => WithCb /\ Depth(stack) < MaxDepth
+
+UpdateGroups(c, g, cb) ==
+    /\ Full /\ Len(stack) > 1 /\ Exec = c /\ IsLive(tbl, c) /\ nchg < MaxChanges /\ g # tbl[c].groups /\ CbOK(cb)
     /\ tbl' = Updated(tbl, c, g) /\ nchg' = nchg + 1
-    /\ UNCHANGED <<base, stack, ntx, pend>>
+    /\ stack' = IF cb THEN PushDeployCb(stack, tbl', c) ELSE stack
+    /\ UNCHANGED <<base, ntx, pend>>
 
 Destroy(c) ==
     /\ Full /\ Len(stack) > 1 /\ Exec = c /\ IsLive(tbl, c) /\ nchg < MaxChanges
     /\ tbl' = Destroyed(tbl, c) /\ nchg' = nchg + 1
     /\ UNCHANGED <<base, stack, ntx, pend>>
 
-Deploy(c, g) ==
-    /\ Full /\ tbl[c].st = "absent" /\ nchg < MaxChanges
+Deploy(c, g, cb) ==
+    /\ Full /\ tbl[c].st = "absent" /\ nchg < MaxChanges /\ CbOK(cb)
     /\ tbl' = Deployed(tbl, c, g) /\ nchg' = nchg + 1
-    /\ UNCHANGED <<base, stack, ntx, pend>>
+    /\ stack' = IF cb THEN PushDeployCb(stack, tbl', c) ELSE stack
+    /\ UNCHANGED <<base, ntx, pend>>
 
 Throw == /\ Running /\ WithTry /\ CatchIndex(stack) # 0
          /\ stack' = AfterThrowStack(stack) /\ tbl' = AfterThrowTable(stack)
@@ -84,7 +91,7 @@ ANext == \/ BeginTx \/ Return \/ Throw \/ NextBlock
          \/ \E how \in {"HALT", "FAULT"} : EndTx(how)
          \/ \E c \in Contracts : \/ \E rs \in BOOLEAN, try \in BOOLEAN : Call(c, rs, try)
                                  \/ Destroy(c)
-                                 \/ \E g \in SUBSET Groups : UpdateGroups(c, g) \/ Deploy(c, g)
+                                 \/ \E g \in SUBSET Groups, cb \in BOOLEAN : UpdateGroups(c, g, cb) \/ Deploy(c, g, cb)
 
 ASpec == AInit /\ [][ANext]_avars
 
@@ -92,7 +99,8 @@ ASpec == AInit /\ [][ANext]_avars
 TypeOK ==
     /\ \A c \in Contracts : /\ tbl[c].st \in {"absent", "live", "dead"} /\ tbl[c].groups \subseteq Groups
                             /\ (tbl[c].st # "live" => tbl[c].groups = {} /\ tbl[c].uc = 0)
-    /\ Running => stack[1].hash = EntryHash /\ \A i \in 2..Len(stack) : stack[i].hash \in Contracts
+    /\ Running => stack[1].hash = EntryHash /\ \A i \in 2..Len(stack) : stack[i].hash \in Contracts \cup {MgmtHash}
+    /\ Running => Top(stack).hash # MgmtHash
     /\ ~Running => tbl = base
 \* a destroyed contract comes back only by a rollback (action property)
 DeadForEver == [][\A c \in Contracts : tbl[c].st = "dead" /\ tbl'[c].st # "dead"
